@@ -84,7 +84,7 @@ def run(F, tier, res):
             ok += 1
         else:
             res.violate('OSC8', 'fn=%s;template' % fmt[0], 'the hyperlink template does not open and close the link in one string (template: %r)' % tmpl, where=F.bodies[fmt[0]]['mir']['span']['at'])
-    res.rule('C19.OSC8', n, 2, 'functions holding OSC literals (%d string literals scanned) + the formatter template' % n_lit, discharged=ok, samples=sorted(osc_sites))
+    res.rule('C19.OSC8', n, 1, 'functions holding OSC literals (%d string literals scanned) + the formatter template' % n_lit, discharged=ok, samples=sorted(osc_sites))
     # ---------- ESCAPE-TABLE
     EL = 'ansi::iterator::Element'
     ne = oke = 0
